@@ -11,7 +11,7 @@ use common::Rng;
 use parking_lot::Mutex;
 
 use crate::reference::Cb;
-use crate::script::{Kind, LocalOp, Step};
+use crate::script::{Fault, Kind, LocalOp, Step};
 
 pub type Trace = Arc<Mutex<Vec<Cb>>>;
 
@@ -30,12 +30,36 @@ pub trait Target {
     /// Write raw bytes into the input channel of the downlink of `kind`. False once the downlink
     /// has closed its reading side (it terminated).
     async fn write(&mut self, kind: Kind, chunk: &[u8]) -> bool;
-    async fn local(&mut self, kind: Kind, op: &LocalOp);
+    /// Issue a local write through the handle. A `patient` write waits for the handle (virtual
+    /// `IO_TIMEOUT`, then the driver is stuck) unless the consumer of the output is stalled; an
+    /// impatient one gives up after two virtual milliseconds and is then not issued at all
+    /// (`Issue::Refused`).
+    async fn local(&mut self, kind: Kind, op: &LocalOp, patient: bool) -> Issue;
     /// Drop every local handle of the downlink of `kind` (it keeps receiving).
     async fn drop_handle(&mut self, kind: Kind);
     /// The consumer of the output channel of the downlink of `kind` goes away.
     async fn output_fault(&mut self, kind: Kind);
+    /// The consumer of the output channel stops / resumes reading.
+    fn output_gate(&mut self, kind: Kind, open: bool);
+    /// Tell the downlink to stop (hosted: `handle.stop()`; client: the handle is dropped).
+    async fn stop(&mut self, kind: Kind);
+    /// Make the input of the downlink fail.
+    async fn input_fault(&mut self, kind: Kind, fault: &Fault);
+    /// Called once the fault has been digested (quiescence): (the downlink gave up its input, it was
+    /// given a new connection on which the script continues).
+    async fn after_input_fault(&mut self, kind: Kind) -> (bool, bool);
     fn trace_len(&self, kind: Kind) -> usize;
+}
+
+/// What became of a local write.
+#[derive(Clone, Copy, PartialEq, Eq, Debug)]
+pub enum Issue {
+    /// The handle took it.
+    Taken,
+    /// The handle's queue was full (the downlink is blocked on its output) and the driver did not wait.
+    Refused,
+    /// There is no handle any more (dropped / the downlink is gone).
+    NoHandle,
 }
 
 /// Where the harness may cut a frame when it writes it into the downlink's input channel.
@@ -71,11 +95,36 @@ pub struct Marks {
     pub map: Vec<Option<(usize, usize)>>,
     pub value_split: Vec<bool>,
     pub map_split: Vec<bool>,
+    /// Input faults executed: see `FaultMark`.
+    pub faults: Vec<FaultMark>,
+    /// Local writes the handle actually took, in the order of issue, each with the index (in the
+    /// kind's script) of the step that issued it.
+    pub issued_v: Vec<(usize, u64)>,
+    pub issued_m: Vec<(usize, LocalOp)>,
+    /// `Stop` steps executed: (kind, index in the kind's script, trace length just before, number of
+    /// local writes of the kind issued before).
+    pub stops: Vec<(Kind, usize, usize, usize)>,
+    /// Local writes the handle refused (impatient ones only).
+    pub refused: u64,
+}
+
+/// One executed `Step::InputFault`: the trace length of the kind before the fault and after it was
+/// digested, whether the downlink gave up the input and whether it got a new connection.
+#[derive(Clone, Debug)]
+pub struct FaultMark {
+    pub kind: Kind,
+    /// Index of the fault step in the kind's script (kept for witnesses).
+    #[allow(dead_code)]
+    pub idx: usize,
+    pub before: usize,
+    pub after: usize,
+    pub detected: bool,
+    pub reconnected: bool,
 }
 
 impl Marks {
     pub fn new(n_value: usize, n_map: usize) -> Marks {
-        Marks { value: vec![None; n_value], map: vec![None; n_map], value_split: vec![false; n_value], map_split: vec![false; n_map] }
+        Marks { value: vec![None; n_value], map: vec![None; n_map], value_split: vec![false; n_value], map_split: vec![false; n_map], ..Default::default() }
     }
 
     pub fn of(&self, kind: Kind) -> &[Option<(usize, usize)>] {
@@ -99,7 +148,32 @@ impl Marks {
         }
     }
 
+    pub fn issued_len(&self, kind: Kind) -> usize {
+        match kind {
+            Kind::Value => self.issued_v.len(),
+            Kind::Map => self.issued_m.len(),
+        }
+    }
+
+    fn record_issue(&mut self, idx: usize, op: &LocalOp, issue: Issue) -> bool {
+        match issue {
+            Issue::Taken => match op {
+                LocalOp::SetV(v) => self.issued_v.push((idx, *v)),
+                other => self.issued_m.push((idx, other.clone())),
+            },
+            Issue::Refused => self.refused += 1,
+            Issue::NoHandle => {}
+        }
+        issue == Issue::Taken
+    }
+
     pub fn absorb(&mut self, part: Marks) {
+        let (nv, nm) = (self.issued_v.len(), self.issued_m.len());
+        self.faults.extend(part.faults);
+        self.stops.extend(part.stops.into_iter().map(|(k, i, t, n)| (k, i, t, n + if k == Kind::Value { nv } else { nm })));
+        self.issued_v.extend(part.issued_v);
+        self.issued_m.extend(part.issued_m);
+        self.refused += part.refused;
         for (dst, src) in self.value.iter_mut().zip(part.value) {
             *dst = dst.or(src);
         }
@@ -158,6 +232,14 @@ async fn feed<T: Target>(t: &mut T, kind: Kind, bytes: &[u8], offset: usize, mod
     (true, body_split)
 }
 
+/// The `i`-th write of a `Step::LocalFill`.
+pub fn fill_op(kind: Kind, first: u64, i: u32) -> LocalOp {
+    match kind {
+        Kind::Value => LocalOp::SetV(first + i as u64),
+        Kind::Map => LocalOp::Upd(100 + i as i32, first + i as u64),
+    }
+}
+
 /// `merged` holds (kind, index into that kind's script, step).
 pub async fn drive<T: Target>(t: &mut T, merged: &[(Kind, usize, Step)], n_value: usize, n_map: usize, mode: CutMode, rng: &mut Rng) -> Marks {
     let mut marks = Marks::new(n_value, n_map);
@@ -184,8 +266,52 @@ pub async fn drive<T: Target>(t: &mut T, merged: &[(Kind, usize, Step)], n_value
             }
             Step::Local(op) => {
                 settle().await;
-                t.local(kind, op).await;
+                let issue = t.local(kind, op, true).await;
+                marks.record_issue(*idx, op, issue);
                 settle().await;
+            }
+            Step::LocalRacing(op) => {
+                let issue = t.local(kind, op, true).await;
+                marks.record_issue(*idx, op, issue);
+            }
+            Step::LocalFill { first, n } => {
+                settle().await;
+                for i in 0..*n {
+                    let op = fill_op(kind, *first, i);
+                    let issue = t.local(kind, &op, false).await;
+                    if !marks.record_issue(*idx, &op, issue) {
+                        break;
+                    }
+                    settle().await;
+                }
+            }
+            Step::OutputGate(open) => {
+                settle().await;
+                t.output_gate(kind, *open);
+                settle().await;
+            }
+            Step::Stop { racing } => {
+                // A racing stop follows a barrier and a local write: every frame written before it
+                // has been digested, so the trace length taken here is exact in both cases.
+                if !*racing {
+                    settle().await;
+                }
+                marks.stops.push((kind, *idx, t.trace_len(kind), marks.issued_len(kind)));
+                t.stop(kind).await;
+                // The stop is digested before anything else is delivered: "after stop" is exact.
+                settle().await;
+            }
+            Step::InputFault(fault) => {
+                settle().await;
+                settle().await;
+                let before = t.trace_len(kind);
+                t.input_fault(kind, fault).await;
+                settle().await;
+                settle().await;
+                let (detected, reconnected) = t.after_input_fault(kind).await;
+                settle().await;
+                let after = t.trace_len(kind);
+                marks.faults.push(FaultMark { kind, idx: *idx, before, after, detected, reconnected });
             }
             Step::SplitLocal(note, op) => {
                 let bytes = note.encode();
@@ -204,7 +330,8 @@ pub async fn drive<T: Target>(t: &mut T, merged: &[(Kind, usize, Step)], n_value
                     marks.set_split(kind, *idx);
                 }
                 settle().await;
-                t.local(kind, op).await;
+                let issue = t.local(kind, op, true).await;
+                marks.record_issue(*idx, op, issue);
                 settle().await;
                 if alive {
                     let (_, split) = feed(t, kind, &bytes[cut..], cut, mode, rng).await;
@@ -255,6 +382,8 @@ pub struct ImplObs {
     /// Operations the downlinks wrote to their output channels (decoded).
     pub v_out: Vec<u64>,
     pub m_out: Vec<LocalOp>,
+    /// How the tasks ended (client only): (downlink, "ok" / "error:<class>").
+    pub task_end: Vec<(&'static str, String)>,
     /// (rule, downlink kind, description): panics, task errors, tasks that never finished.
     pub problems: Vec<(&'static str, &'static str, String)>,
     /// Driver-side budget exhaustion (inconclusive, never a violation).
